@@ -9,7 +9,10 @@ from c10 import chunks, FILLCFG
 LEVEL = "exploration"
 
 REF_STATES = [None, "ref = 0", "ref = 1", "ref = 42", "ref = 4294967295",
-              'ref = "abc"', "ref = x", "ref = x.id", "ref = 1.5", "ref = 4294967296"]
+              'ref = "abc"', "ref = x", "ref = x.id", "ref = 1.5", "ref = 4294967296",
+              # integer literals beyond the ID range, up to beyond every machine integer: not a usable reference, and nothing to crash on
+              "ref = 18446744073709551615", "ref = 18446744073709551616", "ref = 340282366920938463463374607431768211456",
+              "ref = 99999999999999999999999999999999999999999999999999", "ref = 0000000000000000000000007"]
 TARGETS = [None, '"t"']
 DIRECTIVES = ["", "    // breadlog:no-kvp\n"]
 CORE_SHAPES = ['k = 1', 'k = "a;b,c"', 'k = x', 'k', 'k:? = x', 'k:display']
@@ -80,7 +83,7 @@ def run(tier, v):
     pool.close()
     v.count(agg["n"])
     v.coverage["distinct_nontrivial"] += agg["distinct"]
-    v.subspace("ref state (absent, 4 literals, 5 non-literals) x position among the other key-values x key-value lists x target x layout x "
+    v.subspace("ref state (absent, 4 literals, 5 non-literals, 5 over-long integer literals) x position among the other key-values x key-value lists x target x layout x "
                "{none, no-kvp directive}", agg["n"], exhaustive=True, kv_lists=len(kv_space(tier)), layouts=len(layouts(tier)))
     for s in agg["samples"]:
         v.sample({"file": s[0], "expected_entries": s[1]})
